@@ -20,7 +20,7 @@ var props = map[string]propCfg{
 		MinNontriv: 50,
 	},
 	"C01": {
-		Quick:    tierCfg{Shards: 8, Checks: 700, Timeout: 4 * time.Minute},
+		Quick:    tierCfg{Shards: 8, Checks: 2000, Timeout: 4 * time.Minute},
 		Thorough: tierCfg{Shards: 16, Checks: 20000, Timeout: 40 * time.Minute},
 		Rule: "a pattern (expression, statement run, func/type/value declaration) is mined from a drawn place of a real Go file (standard-library sample, repository test inputs, hand-written exotic file) by replacing drawn sub-expressions/identifiers with metavariables and drawn list runs with elisions; the plus side is a drawn edit carrying a marker; 0-3 fresh instances and 1-5 single-field mutants of instances (operator, literal, name, arity, variadic '...', alias '=', channel direction, optional child, metavariable kind/consistency) are planted at drawn statement/declaration positions in drawn syntactic contexts. Oracle: reference matcher/rewriter over canonical syntax trees. " +
 			"Non-trivial = the reference finds >= 1 site and confirms >= 1 planted mutant as a non-instance; distinct by sha256(patch, file).",
@@ -28,7 +28,7 @@ var props = map[string]propCfg{
 		MinNontriv:  50,
 	},
 	"C02": {
-		Quick:    tierCfg{Shards: 8, Checks: 700, Timeout: 4 * time.Minute},
+		Quick:    tierCfg{Shards: 8, Checks: 2000, Timeout: 4 * time.Minute},
 		Thorough: tierCfg{Shards: 16, Checks: 20000, Timeout: 40 * time.Minute},
 		Rule: "as C01 with generalisation biased to repeated metavariables (same hole for tree-equal subterms, and a forced second occurrence that makes the original code a near-miss) and identifier holes; mutants include 'one occurrence differs / is parenthesised' and 'identifier hole filled with a.b, (a), f(), 5, *p'. " +
 			"Non-trivial = a repeated or identifier metavariable, >= 1 site and >= 1 confirmed near-miss in the same file.",
@@ -36,7 +36,7 @@ var props = map[string]propCfg{
 		MinNontriv:  50,
 	},
 	"C03": {
-		Quick:    tierCfg{Shards: 8, Checks: 700, Timeout: 4 * time.Minute},
+		Quick:    tierCfg{Shards: 8, Checks: 2000, Timeout: 4 * time.Minute},
 		Thorough: tierCfg{Shards: 16, Checks: 20000, Timeout: 40 * time.Minute},
 		Rule: "as C01 without elisions, 2-5 planted instances with independently drawn fillers (identifiers, calls, binary/unary expressions, composite and func literals, type expressions), plus sides that rename, wrap, swap, drop, duplicate holes and add statements/arguments. " +
 			"Non-trivial = >= 2 reference sites with pairwise different bindings.",
@@ -44,7 +44,7 @@ var props = map[string]propCfg{
 		MinNontriv:  50,
 	},
 	"C05": {
-		Quick:    tierCfg{Shards: 8, Checks: 500, Timeout: 4 * time.Minute},
+		Quick:    tierCfg{Shards: 8, Checks: 1500, Timeout: 4 * time.Minute},
 		Thorough: tierCfg{Shards: 16, Checks: 12000, Timeout: 40 * time.Minute},
 		Rule: "as C01 on hosts of up to 400 lines (real standard-library files with generics, labels, struct tags, raw strings, build constraints, closures); the whole output file is compared with the reference rewrite as canonical trees, imports as a multiset. " +
 			"Non-trivial = >= 1 reference site (so the file is re-printed) ; distinct by sha256(patch, file).",
